@@ -21,7 +21,7 @@ from netconan import anonymize_files as AF
 from netconan import ip_anonymization as ipa
 from netconan import sensitive_item_removal as SIR
 
-WORDS = ["kitten", "zurnet", "cafe"]
+WORDS = ["kitten", "zurnet", "cafe", "addr", "conan"]      # "addr" is part of reserved words, "conan" of the placeholders
 FIXED_T7 = "0822455D0A16544541"          # the same type-7 secret wherever the fixed-secret kinds occur
 BASE_ASNS = ["65001", "12", "4200000001", "0", "1"]
 _as_cache = {}
@@ -82,6 +82,7 @@ def kind_tokens(kind, r):
         "keystring-scrub": (" ", [("key-string", "scrub"), ("7", "scrub"), (FIXED_T7, "scrub")]),
         "standby-keystring": ("", [("standby", None), ("1", None), ("authentication", None), ("md5", None), ("key-string", None), ("7", None), (FIXED_T7, "pwd"), ("timeout", None), ("30", None)]),
         "v6-with-word": (" ", [("peer", None), (r.choice(["2001:db8:42::cafe:1", "2001:db8::cafe", "cafe:1::2"]), "ip|word")]),
+        "resv-word": (r.choice(["", " "]), [("no", None), (r.choice(["ip", "ipv6", "ipaddr"]), None), (r.choice(["address", "ipaddr", "address-family"]), None)]),
         "v4-mask-zeros": (" ", [("netmask", None), (v4, "ip"), (r.choice(["255.255.255.000", "000.000.000.255", "255.255.000.000"]), None)]),
     }
     return table[kind]
@@ -97,6 +98,8 @@ def render(kind, r, eol):
 
 
 RESERVED = ["CHANGEME", "MyResvWord"]
+from netconan.default_reserved_words import default_reserved_words as _DRW
+BUILTIN_RESERVED = {w.lower() for w in _DRW}
 
 
 def make_fa(feats, salt, undo=False):
@@ -170,8 +173,8 @@ def sens_positions(toks, feats):
             out.append(i + 1)
         elif "as" in feats and has_listed_as_run(t):
             out.append(i + 1)
-        elif "word" in feats and any(w in t.lower() for w in WORDS):
-            out.append(i + 1)
+        elif "word" in feats and any(w in t.lower() for w in WORDS) and t.lower() not in BUILTIN_RESERVED:
+            out.append(i + 1)               # (a token that IS a reserved word is exempt from the word stage: it must be kept)
     return out
 
 
@@ -336,6 +339,69 @@ def run_c15(ck, tier):
         traces.append(ev)
         meta.append({"case": case, "info": info, "salt": salt})
         ck.count(("c15", json.dumps(case, sort_keys=True)))
+    t2, m2 = cli_chains(ck, tier)
+    return traces + t2, meta + m2
+
+
+_CLI_DRIVER = r"""
+import json, sys, logging
+from netconan.netconan import main
+jobs = json.load(open(sys.argv[1]))
+for argv in jobs:
+    try:
+        main(argv)
+    except SystemExit as e:
+        print("EXIT", e.code, argv, file=sys.stderr)
+    except Exception as e:
+        print("EXC", type(e).__name__, e, argv, file=sys.stderr)
+"""
+
+
+def cli_chains(ck, tier):
+    """The same law at the command line: one run with several feature options = single-feature runs one after another
+    (same salt, same reserved words on every run), for every subset of {-p, -a, -w, -n} - with and without -r."""
+    import itertools
+    import subprocess
+    import sys as _sys
+    base = tlc.subdir("c15cli")
+    text = ("hostname kitten-core1\n enable password CHANGEME\nenable password MyResvWord extra\nusername zurnet password 7 0822455D0A16544541\n"
+            "snmp-server community MyResvWord RO\nsnmp-server community S3cr3tCommXq RW\n ip address 11.22.33.44 255.255.255.0\n no ip address\n"
+            "router bgp 65001\n neighbor 198.51.100.7 remote-as 4200000001\n neighbor 2001:db8:42::cafe:1 remote-as 12\n key-string 7 0822455D0A16544541\nend\n")
+    with open(os.path.join(base, "in.cfg"), "w") as fh:
+        fh.write(text)
+    traces, meta = [], []
+    for ri, ropts in enumerate((["-r", "CHANGEME,MyResvWord"], [])):
+        salt = ["cli-salt", "Qz"][ri]
+        flag = {"pwd": ["-p"], "ip": ["-a"], "word": ["-w", ",".join(WORDS)], "as": ["-n", ",".join(asns_for(salt))]}
+        jobs, plan = [], []
+        for n in range(1, 5):
+            for sub in itertools.combinations(("pwd", "ip", "word", "as"), n):
+                tag = "+".join(sub)
+                mo = os.path.join(base, "m_%d_%s.cfg" % (ri, tag))
+                jobs.append(["-s", salt, "-i", os.path.join(base, "in.cfg"), "-o", mo] + ropts + [x for f in sub for x in flag[f]])
+                src = os.path.join(base, "in.cfg")
+                for f in sub:
+                    co = os.path.join(base, "c_%d_%s_%s.cfg" % (ri, tag, f))
+                    jobs.append(["-s", salt, "-i", src, "-o", co] + ropts + flag[f])
+                    src = co
+                plan.append((sub, mo, src))
+        jf = os.path.join(base, "jobs%d.json" % ri)
+        json.dump(jobs, open(jf, "w"))
+        p = subprocess.run([_sys.executable, "-c", _CLI_DRIVER, jf], env=dict(os.environ, PYTHONPATH=common.REPO, PYTHONHASHSEED="0"),
+                           stdout=subprocess.PIPE, stderr=subprocess.PIPE, text=True)
+        bad = [l for l in p.stderr.splitlines() if l.startswith(("EXIT", "EXC"))]
+        for sub, mo, co in plan:
+            ev = [{"ev": "cfg", "collapse": True, "clauses": ["Samecli"]}]
+            info = [None]
+            if bad or not (os.path.isfile(mo) and os.path.isfile(co)):
+                ev.append({"ev": "exc", "what": "command line run failed: %s" % (bad[:1] or [mo])})
+                info.append(("exception", "cli %s" % "+".join(sub)))
+            else:
+                ev.append({"ev": "same", "what": "cli", "a": open(mo).read(), "b": open(co).read()})
+                info.append(("cli", "options %s %s" % ("+".join(sub), " ".join(ropts))))
+            traces.append(ev)
+            meta.append({"case": {"features": list(sub), "eol": "lf", "kinds": ["cli"], "reserved_option": bool(ropts)}, "info": info, "salt": salt})
+            ck.count(("c15cli", ri, sub))
     return traces, meta
 
 
